@@ -330,7 +330,7 @@ Proof.
       rewrite last_last in Hlast. apply negb_true_iff in Hlast.
       apply (cons_test_enc_false a Hwa Hlast).
     + cbn [size] in Hn. change (x :: m ++ [a]) with ((x :: m) ++ [a]) in Hn.
-      pose proof (length_le_sum ((x :: m) ++ [a])) as HL. rewrite app_length in HL. cbn [length] in HL. match goal with |- ?G => idtac G end. idtac Hn. match type of Hn with ?T => idtac T end. match type of HL with ?T => idtac T end. lia.
+      pose proof (length_le_sum ((x :: m) ++ [a])) as HL. rewrite app_length in HL. cbn [length] in HL. match goal with |- ?G => idtac G end. match type of Hn with ?T => idtac T end. match type of HL with ?T => idtac T end. lia.
     + cbn [wf] in Hw. apply andb_true_iff in Hw. destruct Hw as [Hw Hlast].
       apply andb_true_iff in Hw. destruct Hw as [_ Hw].
       change (x :: m ++ [a]) with ((x :: m) ++ [a]) in *. rewrite forallb_app in Hw.
